@@ -207,6 +207,11 @@ class Api:
                 return self._run(ident)
 
             async def _run(self, ident):
+                if flavour == "slow":
+                    # a subscriber that does a little I/O of its own before it handles the news: it counts as notified when it has
+                    # got that far (a notification that is cancelled half way was not delivered)
+                    for _ in range(3):
+                        await asyncio.sleep(0)
                 api.out.append("NOTIFY %s %s %s" % (kind, canon(ident) if isinstance(ident, str) else ident, sid))
                 if flavour == "once" and self.undo is not None:
                     self.undo(self)                     # a one-shot subscriber: unsubscribes itself from inside its callback
@@ -340,7 +345,7 @@ class Api:
 
     def _subunsub(self, k, w):
         raises = w[-1] == "raise"
-        flavour = w[-1] if w[-1] in ("once", "caller", "syncraise") else None
+        flavour = w[-1] if w[-1] in ("once", "caller", "syncraise", "slow") else None
         if raises or flavour:
             w = w[:-1]
         if w[0] == "at":
